@@ -52,16 +52,16 @@ func runBursts(seed int64, n int) (res burstResult) {
 	// split the money of K0 and K1 into many small outputs (one block)
 	var setup []*pb.Transaction
 	for _, k := range []*sn.Key{sn.K(0), sn.K(1)} {
-		ins, _, tot, err := node.State.SelectUtxos(k.Address, big.NewInt(400*60), false, false)
+		ins, _, tot, err := node.State.SelectUtxos(k.Address, big.NewInt(1000*60), false, false)
 		if err != nil {
 			problem("harness|setup", "%v", err)
 			return
 		}
 		var outs []sn.Out
-		for i := 0; i < 400; i++ {
+		for i := 0; i < 1000; i++ {
 			outs = append(outs, sn.Out{To: k.Address, Amount: big.NewInt(60)})
 		}
-		if rest := new(big.Int).Sub(tot, big.NewInt(400*60)); rest.Sign() > 0 {
+		if rest := new(big.Int).Sub(tot, big.NewInt(1000*60)); rest.Sign() > 0 {
 			outs = append(outs, sn.Out{To: k.Address, Amount: rest})
 		}
 		x, err := sn.BuildTx(sn.TxSpec{Initiator: k.Address, Signers: []*sn.Key{k}, Inputs: ins, Outputs: outs, Nonce: "split-" + k.Name, Timestamp: 5})
@@ -118,7 +118,7 @@ func runBursts(seed int64, n int) (res burstResult) {
 			// they could and found it not enough - give their reservations back
 			addr := sn.K(2 + (b/5)%2).Address
 			// (the cold-cache bursts restart the node: warm the cache again with fresh payments)
-			for w := 0; w < 4 && nextCoin < 400; w++ {
+			for w := 0; w < 4 && nextCoin < 1000; w++ {
 				in := &protos.TxInput{RefTxid: splitID, RefOffset: int32(nextCoin), FromAddr: []byte(sn.K(0).Address), Amount: big.NewInt(60).Bytes()}
 				nextCoin++
 				x, err := sn.BuildTx(sn.TxSpec{Initiator: sn.K(0).Address, Signers: []*sn.Key{sn.K(0)}, Inputs: []*protos.TxInput{in},
@@ -155,7 +155,7 @@ func runBursts(seed int64, n int) (res burstResult) {
 			res.WarmSelectBursts++
 			fire(fs)
 		case 0: // 4-6 spenders of ONE output of K0
-			if nextCoin >= 400 {
+			if nextCoin >= 1000 {
 				continue
 			}
 			in := &protos.TxInput{RefTxid: splitID, RefOffset: int32(nextCoin), FromAddr: []byte(sn.K(0).Address), Amount: big.NewInt(60).Bytes()}
